@@ -41,19 +41,19 @@ type deferred struct {
 }
 
 type frame struct {
-	fn        *ssa.Function
-	caller    *frame
-	env       []Value
-	idx       map[ssa.Value]int
-	block     *ssa.BasicBlock
-	prev      *ssa.BasicBlock
-	defers    []deferred
-	result    Value
-	panicking *goPanic
-	recovered bool
-	visits    []int32
-	depth     int
-	skipPhis  bool
+	fn           *ssa.Function
+	caller       *frame
+	env          []Value
+	idx          map[ssa.Value]int
+	block        *ssa.BasicBlock
+	prev         *ssa.BasicBlock
+	defers       []deferred
+	result       Value
+	panicking    *goPanic
+	recovered    bool
+	visits       []int32
+	depth        int
+	skipPhis     bool
 	specReturned bool
 }
 
@@ -77,52 +77,53 @@ type observation struct {
 
 // Exec executes one path.
 type Exec struct {
-	prog    *Program
-	ts      *TermStore
-	solver  *Solver
-	printer *smtPrinter
+	prog     *Program
+	ts       *TermStore
+	solver   *Solver
+	printer  *smtPrinter
 	declared map[string]bool
 
 	prefix []uint64 // decisions to replay
 	trace  []uint64 // decisions taken
 	forced []bool
 
-	pc           []*Term
-	globals      map[*ssa.Global]*Loc
-	initDone     map[*ssa.Package]bool
-	inInit       int
+	pc            []*Term
+	globals       map[*ssa.Global]*Loc
+	initDone      map[*ssa.Package]bool
+	inInit        int
 	frozenGlobals bool
-	globalWrites int
-	locID        int
-	objID        int
-	symCount     map[string]int
-	inputs       []symInput
-	steps        int
-	reached      map[string]bool
-	observes     []observation
-	violations   []violation
-	asserts      int // assertion queries discharged (unsat)
-	assertsSeen  int
-	warnings     map[string]int
-	funcsUsed    map[*ssa.Function]bool
-	unwind       int
-	curFrame     *frame
-	hooks        map[string]*Closure // stub redirects installed by harness
-	concrete     map[string]uint64   // concrete model mode (self-test): key -> value
-	timeNow      *Term
-	opaqueErrs   int
-	lastPos      token.Pos
-	entryName    string
-	tagStack     []string
-	spec         int
-	specStart    int
-	specObjStart int
-	specSteps    int
-	interf       map[*Loc]bool
-	envInputs    int
-	hashApps     []hashApp
-	known        map[*Term]bool
-	jsonBlobs    []jsonBlob
+	globalWrites  int
+	locID         int
+	objID         int
+	symCount      map[string]int
+	inputs        []symInput
+	steps         int
+	reached       map[string]bool
+	observes      []observation
+	violations    []violation
+	asserts       int // assertion queries discharged (unsat)
+	assertsSeen   int
+	warnings      map[string]int
+	funcsUsed     map[*ssa.Function]bool
+	unwind        int
+	curFrame      *frame
+	hooks         map[string]*Closure // stub redirects installed by harness
+	concrete      map[string]uint64   // concrete model mode (self-test): key -> value
+	timeNow       *Term
+	opaqueErrs    int
+	lastPos       token.Pos
+	entryName     string
+	tagStack      []string
+	spec          int
+	specStart     int
+	specObjStart  int
+	specSteps     int
+	interf        map[*Loc]bool
+	envInputs     int
+	hashApps      []hashApp
+	known         map[*Term]bool
+	jsonBlobs     []jsonBlob
+	jsonDecs      map[*Loc]*jsonDecState
 }
 
 func (e *Exec) unsupported(msg string) {
